@@ -22,6 +22,9 @@ Gen/Layouts.vos Gen/Layouts.vok Gen/Layouts.required_vos: Gen/Layouts.v Base/Lay
 Model/AlignedStream.vo Model/AlignedStream.glob Model/AlignedStream.v.beautified Model/AlignedStream.required_vo: Model/AlignedStream.v Base/Plan.vo
 Model/AlignedStream.vio: Model/AlignedStream.v Base/Plan.vio
 Model/AlignedStream.vos Model/AlignedStream.vok Model/AlignedStream.required_vos: Model/AlignedStream.v Base/Plan.vos
+Model/Chain.vo Model/Chain.glob Model/Chain.v.beautified Model/Chain.required_vo: Model/Chain.v Base/Plan.vo
+Model/Chain.vio: Model/Chain.v Base/Plan.vio
+Model/Chain.vos Model/Chain.vok Model/Chain.required_vos: Model/Chain.v Base/Plan.vos
 Model/Hds.vo Model/Hds.glob Model/Hds.v.beautified Model/Hds.required_vo: Model/Hds.v Base/Plan.vo Base/Table.vo Gen/Consts.vo
 Model/Hds.vio: Model/Hds.v Base/Plan.vio Base/Table.vio Gen/Consts.vio
 Model/Hds.vos Model/Hds.vok Model/Hds.required_vos: Model/Hds.v Base/Plan.vos Base/Table.vos Gen/Consts.vos
@@ -46,9 +49,15 @@ Proofs/AlignedStream.vos Proofs/AlignedStream.vok Proofs/AlignedStream.required_
 Proofs/BlockMapped.vo Proofs/BlockMapped.glob Proofs/BlockMapped.v.beautified Proofs/BlockMapped.required_vo: Proofs/BlockMapped.v Base/Arith.vo Base/Plan.vo Model/Walk.vo
 Proofs/BlockMapped.vio: Proofs/BlockMapped.v Base/Arith.vio Base/Plan.vio Model/Walk.vio
 Proofs/BlockMapped.vos Proofs/BlockMapped.vok Proofs/BlockMapped.required_vos: Proofs/BlockMapped.v Base/Arith.vos Base/Plan.vos Model/Walk.vos
+Proofs/Chain.vo Proofs/Chain.glob Proofs/Chain.v.beautified Proofs/Chain.required_vo: Proofs/Chain.v Base/Plan.vo Model/Chain.vo
+Proofs/Chain.vio: Proofs/Chain.v Base/Plan.vio Model/Chain.vio
+Proofs/Chain.vos Proofs/Chain.vok Proofs/Chain.required_vos: Proofs/Chain.v Base/Plan.vos Model/Chain.vos
 Proofs/Hds.vo Proofs/Hds.glob Proofs/Hds.v.beautified Proofs/Hds.required_vo: Proofs/Hds.v Base/Arith.vo Base/Plan.vo Base/Table.vo Model/Hds.vo Proofs/BlockMapped.vo
 Proofs/Hds.vio: Proofs/Hds.v Base/Arith.vio Base/Plan.vio Base/Table.vio Model/Hds.vio Proofs/BlockMapped.vio
 Proofs/Hds.vos Proofs/Hds.vok Proofs/Hds.required_vos: Proofs/Hds.v Base/Arith.vos Base/Plan.vos Base/Table.vos Model/Hds.vos Proofs/BlockMapped.vos
+Proofs/Layers.vo Proofs/Layers.glob Proofs/Layers.v.beautified Proofs/Layers.required_vo: Proofs/Layers.v Base/Arith.vo Base/Plan.vo Base/Table.vo Model/Walk.vo Proofs/BlockMapped.vo Model/Chain.vo Proofs/Chain.vo Model/Vdi.vo Proofs/Vdi.vo Model/Hds.vo Proofs/Hds.vo
+Proofs/Layers.vio: Proofs/Layers.v Base/Arith.vio Base/Plan.vio Base/Table.vio Model/Walk.vio Proofs/BlockMapped.vio Model/Chain.vio Proofs/Chain.vio Model/Vdi.vio Proofs/Vdi.vio Model/Hds.vio Proofs/Hds.vio
+Proofs/Layers.vos Proofs/Layers.vok Proofs/Layers.required_vos: Proofs/Layers.v Base/Arith.vos Base/Plan.vos Base/Table.vos Model/Walk.vos Proofs/BlockMapped.vos Model/Chain.vos Proofs/Chain.vos Model/Vdi.vos Proofs/Vdi.vos Model/Hds.vos Proofs/Hds.vos
 Proofs/Lru.vo Proofs/Lru.glob Proofs/Lru.v.beautified Proofs/Lru.required_vo: Proofs/Lru.v Model/Lru.vo
 Proofs/Lru.vio: Proofs/Lru.v Model/Lru.vio
 Proofs/Lru.vos Proofs/Lru.vok Proofs/Lru.required_vos: Proofs/Lru.v Model/Lru.vos
